@@ -73,13 +73,13 @@ func vnDecl(id string, src []byte, exp []vnUnit, gapMax int) ([]byte, []vnUnit) 
 	src = append(src, ':')
 	src, _, _ = vnGap(id+"g2", src, gapMax)
 	var vals []string
-	nv := vRange(id+"nv", 0, 2)
+	nv := vRange(id+"nv", 0, vParam("NV", 2))
 	for i := 0; i < nv; i++ {
 		v := vnValAtoms[vRange(id+"v"+string(rune('0'+i)), 0, vParam("ATOMS", 2)-1)]
 		if i > 0 {
-			sep := vRange(id+"sep", 0, 3)
+			sep := vRange(id+"sep"+string(rune('0'+i)), 0, 3)
 			var ws1, cm1, ws2, cm2 bool
-			src, ws1, cm1 = vnGap(id+"s1", src, gapMax)
+			src, ws1, cm1 = vnGap(id+"s1"+string(rune('0'+i)), src, gapMax)
 			switch sep {
 			case 0: // whitespace / comment only; must separate the two values
 				vAssume(ws1 || cm1)
@@ -87,7 +87,7 @@ func vnDecl(id string, src []byte, exp []vnUnit, gapMax int) ([]byte, []vnUnit) 
 			case 1, 2, 3:
 				p := []string{"", ",", "/", "!"}[sep]
 				src = append(src, p...)
-				src, ws2, cm2 = vnGap(id+"s2", src, gapMax)
+				src, ws2, cm2 = vnGap(id+"s2"+string(rune('0'+i)), src, gapMax)
 				vals = append(vals, p)
 			}
 			_, _ = ws2, cm2
@@ -244,4 +244,48 @@ func VerifInlineDecls() {
 	}
 	vnCheckSheet(src, exp, true)
 	vReach("inline")
+}
+
+var vnUnknownPieces = []string{"a{b:c}", "a{b:calc(1)}", "f(1)", "[x]", "(y)", "u{v{w:rgb(0,0,0)}}", " ", "k", ";", "p{q:url(r)}", "/*c*/"}
+
+// VerifUnknownAtRule: an at-rule the parser does not know keeps its block as a token stream:
+// BeginAtRule, then every lexer token of the block content in source order (whitespace and
+// comments included), EndAtRule at the brace that closes the block - however functions,
+// parentheses, brackets and braces nest inside - and the rules after it are parsed normally.
+func VerifUnknownAtRule() {
+	name := []string{"@container", "@property", "@-x-y"}[vRange("name", 0, 2)]
+	n := vRange("n", 0, vParam("N", 3))
+	content := ""
+	for i := 0; i < n; i++ {
+		content += vnUnknownPieces[vRange("p"+string(rune('0'+i)), 0, len(vnUnknownPieces)-1)]
+	}
+	src := []byte(name + " z{" + content + "}b{x:y}")
+	p := NewParser(parse.NewInputBytes(append(make([]byte, 0, len(src)+1), src...)), false)
+	gt, _, data := p.Next()
+	vAssert(gt == BeginAtRuleGrammar && string(data) == name, "unknown-atrule-begin")
+	toks := vnLexAll([]byte(content))
+	first := true
+	for _, t := range toks {
+		if t.tt == CommentToken {
+			continue // comments inside the block are dropped by the token reader
+		}
+		if first && t.tt == WhitespaceToken {
+			continue // whitespace (and comments) before the first token of the block are not reported
+		}
+		first = false
+		gt, tt, data := p.Next()
+		vAssert(gt == TokenGrammar, "unknown-atrule-content-not-a-token-unit")
+		vAssert(tt == t.tt && string(data) == content[t.start:t.end], "unknown-atrule-token-differs")
+	}
+	gt, _, _ = p.Next()
+	vAssert(gt == EndAtRuleGrammar, "unknown-atrule-end-misplaced")
+	gt, _, _ = p.Next()
+	vAssert(gt == BeginRulesetGrammar, "rule-after-unknown-atrule-lost")
+	gt, _, data = p.Next()
+	vAssert(gt == DeclarationGrammar && string(data) == "x", "rule-after-unknown-atrule-lost")
+	gt, _, _ = p.Next()
+	vAssert(gt == EndRulesetGrammar, "rule-after-unknown-atrule-lost")
+	gt, _, _ = p.Next()
+	vAssert(gt == ErrorGrammar && p.Err() == io.EOF && !p.HasParseError(), "unknown-atrule-sheet-end")
+	vReach("unknown")
 }
